@@ -175,6 +175,51 @@ theorem marks_legal (f : File) (hwf : wfFile f = true) (g : Gran) (hg : g ≠ .f
           subst hlb
           exact force_target_legal env f hcm b hbf hbok.1 hlt _ r hskip
 
+/-- **marks_legal_func — the same at func granularity**: on a well-formed file whose function
+    scopes are the brace pairs of its blocks (`scopesOK`), every insert position is the first
+    boundary of the body of the function that encloses the line of the passing event — a statement
+    boundary again. -/
+theorem marks_legal_func (f : File) (hwf : wfFileFunc f = true)
+    (ranges : List (Nat × Nat)) (m : Marks) (h : marks f .func ranges = .ok m) :
+    ∀ r ∈ m.multi, legalLine f r = true := by
+  intro r hr
+  unfold marks at h
+  split at h
+  · cases h
+  · next env henv =>
+    dsimp only at h
+    split at h
+    · cases h
+    · next st hst =>
+      cases h
+      rw [C03.mem_sortNat] at hr
+      have hgran : env.gran = .func := C03.mkEnv_gran f .func ranges env henv
+      obtain ⟨hcm, hfs⟩ := mkEnv_fields f .func ranges env henv
+      simp only [wfFileFunc, wfFile, Bool.and_eq_true, List.all_eq_true] at hwf
+      obtain ⟨⟨⟨_, hblks⟩, _⟩, hsc⟩ := hwf
+      simp only [scopesOK, hfs, List.all_eq_true, List.any_eq_true, Bool.and_eq_true, beq_iff_eq] at hsc
+      rcases C09.points_justified env _ {} st (Inv.init env) hst r hr with h0 | ⟨l, _, ht⟩
+      · cases h0
+      · rcases ht with ⟨h1, _⟩ | ⟨_, s, e, hget, hne, hskip⟩
+        · exact absurd hgran h1
+        · obtain ⟨p, hp, hlo, hhi⟩ := searchScopes_spec env.funcs l hne
+          rw [hget] at hp
+          cases hp
+          -- the scope is not the first one, hence the brace pair of a block
+          have hmem : (s, e) ∈ env.funcs.drop 1 := by
+            have hidx : searchScopes env.funcs l = (searchScopes env.funcs l - 1) + 1 := by omega
+            rw [hidx] at hget
+            have : (env.funcs.drop 1)[searchScopes env.funcs l - 1]? = some (s, e) := by
+              rw [List.getElem?_drop]; rw [Nat.add_comm]; exact hget
+            exact List.mem_of_getElem? this
+          obtain ⟨b, hb, ⟨hbl, hbh⟩⟩ := hsc (s, e) hmem
+          have hbok := hblks b hb
+          have hbl' : b.lo = s := hbl
+          have hbh' : b.hi = e := hbh
+          have hlt : b.lo < b.hi := by rw [hbl', hbh']; simp only at hlo hhi; omega
+          rw [← hbl'] at hskip
+          exact force_target_legal env f hcm b hb hbok.1 hlt _ r hskip
+
 /-- non-vacuity of `marks_legal`: a well-formed file with an `if` whose header is changed (a
     forced insert that skips a comment line) and a changed statement -/
 def legalExample : File :=
@@ -183,7 +228,7 @@ def legalExample : File :=
       [.ifS 4 7 [] none (some (4, 4)) [] 4 7 [.simple .mark 6 6 [] [] []] [],
        .simple .mark 8 8 [] [] [], .simple .mark 9 9 [] [] []]))]⟩
 
-example : wfFile legalExample = true := by decide
+example : wfFileFunc legalExample = true := by decide
 example : (marks legalExample .line [(4, 1), (9, 1)]).toOption.map (·.multi) = some [6, 9] := by decide +kernel
 
 /-- non-vacuity: a file with a body-less declaration and a function with a body -/
